@@ -22,6 +22,10 @@ func main() {
 		err = genConsts(os.Args[2], os.Args[3])
 	case "sched":
 		err = genSched(os.Args[2], os.Args[3])
+	case "phout":
+		err = genPhout(os.Args[2], os.Args[3])
+	case "schema":
+		err = genSchema(os.Args[2], os.Args[3])
 	default:
 		err = fmt.Errorf("unknown translator %q", os.Args[1])
 	}
